@@ -207,3 +207,6 @@ def run(ctx):
     # before allocation (a release inside the finish check that runs after it would overwrite ABSENCE with FREE)
     from .C04 import r4_4
     r4_4(ctx)
+    # "... and is not absent": the per-step state table of workers and facilities
+    from .C10 import r10_2
+    r10_2(ctx)
